@@ -122,10 +122,13 @@ def run(ctx):
     # V6: the loan counter protocol that keeps deposits out while a loan is outstanding (decided by C06-X4's rules,
     # filed here because a deposit priced against the lent-out balance dilutes the share price)
     from .C06 import check_flash_loan, check_after_trade
-    px = ctx.renamed({"C06-X4": "C05-V6", "C06-X3": "C05-V7"})   # V7: settlement requires old balance + all three fees
+    px = ctx.renamed({"C06-X4": "C05-V6", "C06-X3": "C05-V7", "C06-X2": "C05-V7"})   # V7: settlement requires old balance + all three fees
     check_deposit(px, model)
     check_flash_loan(px, model)
     check_after_trade(px, model)
+    # ... and the pending-fee ledger the share price is computed from grows by exactly this loan's protocol fee (C07-F1)
+    from .C07 import check_vault_after_trade
+    check_vault_after_trade(ctx.renamed({"C07-F1": "C05-V7", "C07-F2": "C05-V7"}), model)
 
 
 def check_share_formula(ctx, model):
